@@ -45,7 +45,7 @@ LEVEL_TEXT = (
   "boundary, one-step differential oracle vs MuJoCo C with state re-synchronisation, and metamorphic comparison "
   "across task orders of the wake kernels."
 )
-BUDGET = {"quick": 150, "thorough": 1500}
+BUDGET = {"quick": 300, "thorough": 1500}
 
 # mechanisms after which a history keeps being observed (each is reported once per case; see the final report)
 CONTINUE_SIGS = {
